@@ -15,17 +15,17 @@ Record obs := {
 
 Definition case := (input * obs)%type.
 
-Fixpoint run_acts_roots (w : world) (acts : list action) (cfg : config) (acc : list refs) : list refs :=
+Fixpoint roots_of (w : world) (acts : list action) (cfg : config) : list refs :=
   match acts with
-  | [] => rev acc
-  | ARebase c :: t => let cfg' := step w cfg (c, SRebase) in run_acts_roots w t cfg' (g_refs cfg' :: acc)
-  | AOp c o :: t => let cfg' := run w (call_steps c) cfg in run_acts_roots w t cfg' (g_refs cfg' :: acc)
+  | [] => []
+  | ARebase c :: t => let cfg' := step w cfg (c, SRebase) in g_refs cfg' :: roots_of w t cfg'
+  | AOp c o :: t => let cfg' := run w (call_steps c) cfg in g_refs cfg' :: roots_of w t cfg'
   end.
 
 Definition model_obs (i : input) : obs :=
   {| o_base := C20.Corr.model_obs i;
      o_roots := if i_conc i then []
-                else run_acts_roots (i_world i) (i_acts i) (init (i_m0 i) (progs_of (i_acts i))) [] |}.
+                else roots_of (i_world i) (i_acts i) (init (i_m0 i) (progs_of (i_acts i))) |}.
 
 Fixpoint roots_eqb (a b : list refs) : bool :=
   match a, b with
